@@ -61,9 +61,9 @@ Implicit Types c : sconn.
 
 (* ---------- a piece of a step: the trace grows, its DATA frames are valid for the ledger ---------- *)
 
-(* every DATA frame in the list is on a stream satisfying P *)
+(* every DATA frame in the list is on a stream satisfying P, and no longer than the smallest SETTINGS_MAX_FRAME_SIZE *)
 Definition data_on (P : N -> Prop) (new : list outev) : Prop :=
-  forall o sid es pl, In o new -> strip o = OData sid es pl -> P sid.
+  forall o sid es pl, In o new -> strip o = OData sid es pl -> P sid /\ len pl <= 16384.
 
 Definition LedOn (P : N -> Prop) c (L : ledger) c' (L' : ledger) : Prop :=
   exists new, sc_out c' = new ++ sc_out c /\ data_on P new /\
@@ -95,7 +95,7 @@ Qed.
 Lemma LedOn_weaken (P Q : N -> Prop) a La b Lb : (forall x, P x -> Q x) -> LedOn P a La b Lb -> LedOn Q a La b Lb.
 Proof.
   intros H (n & E & D & V & ->). exists n. split; [assumption | split; [|split; [assumption | reflexivity]]].
-  intros o sid es pl Hin Ho. eauto.
+  intros o sid es pl Hin Ho. destruct (D _ _ _ _ Hin Ho). auto.
 Qed.
 
 Lemma LedOn_quiet P c c' L : out_ext quiet_out c c' -> LedOn P c L c' L.
@@ -212,14 +212,14 @@ Qed.
 
 (* one chunk of z bytes on sid, queued (pre = [frame]) or dropped because the write loop is gone (pre = []) *)
 Lemma led_chunk (L : ledger) sid w z es pl pre :
-  l_strm L sid = Some w -> Z.of_N (len pl) = z ->
+  l_strm L sid = Some w -> Z.of_N (len pl) = z -> (z <= 16384)%Z ->
   (pre = [] \/ pre = [OData sid es pl] \/ pre = [OLate (OData sid es pl)]) ->
   (z = 0 \/ (0 < z /\ z <= l_conn L /\ z <= w))%Z ->
   lvalid L (ldatas pre) /\ data_on (eq sid) pre /\
   (l_conn L - z <= l_conn (lrun L (ldatas pre)))%Z /\
   exists w', l_strm (lrun L (ldatas pre)) sid = Some w' /\ (w - z <= w')%Z.
 Proof.
-  intros Hw Hz Hpre Hok.
+  intros Hw Hz Hmax Hpre Hok.
   assert (Z0 : (0 <= z)%Z) by flia.
   destruct Hpre as [->|Hpre].
   - cbn. split; [exact I|]. split; [apply data_on_nil|]. split; [flia|]. exists w. split; [assumption | flia].
@@ -227,7 +227,8 @@ Proof.
     rewrite E. cbn [lvalid lallowed lrun fold_left lstep l_conn l_strm]. rewrite Hw.
     split; [split; [exists w; split; [reflexivity | exact Hok] | exact I]|].
     split.
-    { intros o s0 es0 pl0 Hin Ho. destruct Hpre as [->| ->]; destruct Hin as [<-|[]]; cbn in Ho; congruence. }
+    { intros o s0 es0 pl0 Hin Ho. destruct Hpre as [->| ->]; destruct Hin as [<-|[]]; cbn in Ho;
+        inversion Ho; subst; (split; [reflexivity | flia]). }
     split; [flia|]. exists (w - z)%Z. rewrite strm_upd_same. split; [reflexivity | flia].
 Qed.
 
@@ -246,7 +247,7 @@ Proof.
     assert (W1 : sn_window n1 = sn_window n) by eauto using refill_window.
     destruct (sn_pendingEnd n1).
     + destruct (emit_cases c (OData sid true [])) as (pre & E & Hpre).
-      destruct (led_chunk L sid w 0%Z true [] pre Hw eq_refl Hpre (or_introl eq_refl)) as (V & D & C & w' & Hw' & Hle).
+      destruct (led_chunk L sid w 0%Z true [] pre Hw eq_refl ltac:(flia) Hpre (or_introl eq_refl)) as (V & D & C & w' & Hw' & Hle).
       exists (lrun L (ldatas pre)). split.
       * exists pre. assert (R : rev pre = pre) by (destruct Hpre as [->|[->| ->]]; reflexivity). rewrite R. auto.
       * rewrite sc_clientWindow_emit. split; [flia|]. exists w'. split; [assumption | flia].
@@ -258,7 +259,7 @@ Proof.
     destruct (sd_step_bounds _ c n1 P1 H0) as (B1 & B2 & B3 & B4 & B5).
     pose proof (sd_chunk_len _ c n1 P1 H0) as CL.
     destruct (emit_cases c (OData sid (sd_es c n1) (sd_chunk c n1))) as (pre & E & Hpre).
-    destruct (led_chunk L sid w (sd_step c n1) _ _ pre Hw CL Hpre) as (V & D & C & w' & Hw' & Hle); [right; flia|].
+    destruct (led_chunk L sid w (sd_step c n1) _ _ pre Hw CL B2 Hpre) as (V & D & C & w' & Hw' & Hle); [right; flia|].
     exists (lrun L (ldatas pre)). split.
     + exists pre. assert (R : rev pre = pre) by (destruct Hpre as [->|[->| ->]]; reflexivity). rewrite R.
       unfold sd_c2. sc_cbn. auto.
@@ -268,7 +269,7 @@ Proof.
     destruct (sd_step_bounds _ c n1 P1 H0) as (B1 & B2 & B3 & B4 & B5).
     pose proof (sd_chunk_len _ c n1 P1 H0) as CL.
     destruct (emit_cases c (OData sid (sd_es c n1) (sd_chunk c n1))) as (pre & E & Hpre).
-    destruct (led_chunk L sid w (sd_step c n1) _ _ pre Hw CL Hpre) as (V & D & C & w' & Hw' & Hle); [right; flia|].
+    destruct (led_chunk L sid w (sd_step c n1) _ _ pre Hw CL B2 Hpre) as (V & D & C & w' & Hw' & Hle); [right; flia|].
     destruct (IHSDL (lrun L (ldatas pre)) w') as (L' & Led & C' & w'' & Hw'' & Hle'').
     + unfold sd_c2. sc_cbn. flia.
     + assumption.
